@@ -284,6 +284,9 @@ Definition chk (rows : list row) : bool := replay [] rows.
         chk.known(key, what)
       else:
         chk.violation('oracle', what, pr[key])
+  for b in pr.get('restore_with_target', [{'missing': True}])[:4]:
+    chk.violation('oracle', 'restoring a retained step does not return exactly the tree saved at that step (train-state-like trees with lists / tuples / a namedtuple of 1-23 entries, '
+                  'three steps with keep=2, restored into a template and with target=None)', b)
   chk.notes['histories'] = len(hs)
   chk.notes['saves_that_crashed'] = ncrash
   chk.notes['atomic_operation_kinds_observed'] = opkinds
